@@ -97,6 +97,10 @@ theorem pretty_shape (cfg : PCfg) (margin : Nat) : ∀ x : Obj,
     refine ⟨fun _ _ => SameShape.refl_tok _, fun off pos closes => ?_⟩
     simp only [prettyTail, flatTail]
     exact dottedTail_shape margin off pos closes _ (SameShape.refl_tok _)
+  | flt ff neg ds e =>
+    refine ⟨fun _ _ => SameShape.refl_tok _, fun off pos closes => ?_⟩
+    simp only [prettyTail, flatTail]
+    exact dottedTail_shape margin off pos closes _ (SameShape.refl_tok _)
   | cons a d iha ihd =>
     constructor
     · intro offset closes
